@@ -2,7 +2,7 @@
    Property theorems only (each closed by [exact] of a lemma proved elsewhere, followed by Print Assumptions). *)
 From Coq Require Import NArith List Bool.
 From V9 Require Shape.ShapeLib Shape.PUfs17.
-From V9 Require Import Lib.GoSem Lib.Bytes Gen.Consts Ufs.Path Ufs.Handlers Ufs.UfsProofs.
+From V9 Require Import Lib.GoSem Lib.Bytes Gen.Consts Ufs.Path Ufs.Handlers Ufs.UfsProofs Ufs.WstatExact.
 Import ListNotations.
 Local Open Scope N_scope.
 
@@ -42,6 +42,68 @@ Theorem C17_wstat_follows_rename : forall dotu root path w ops d,
   (forall p len, In (STruncate p len) ops -> p = d).
 Proof. exact wstat_follows_rename. Qed.
 Print Assumptions C17_wstat_follows_rename.
+
+(* ---- "and changes nothing else": a Twstat, read field by field (Ufs/WstatExact.v) ---- *)
+(* a Twstat issues nothing but chmod / chown / rename / truncate / chtimes: no create, open, link or remove *)
+Theorem C17_wstat_only_metadata : forall dotu root path w ops o,
+  wstat_plan dotu root path w = CPlan ops -> In o ops ->
+  is_chmod o || is_chown o || is_rename o || is_trunc o || is_times o = true.
+Proof. exact wstat_only_metadata. Qed.
+Print Assumptions C17_wstat_only_metadata.
+
+(* ... each at most once, in the order chmod, chown, rename, truncate, chtimes *)
+Theorem C17_wstat_order : forall dotu root path w ops,
+  wstat_plan dotu root path w = CPlan ops ->
+  (length ops <= 5)%nat /\
+  exists a b c d e, ops = a ++ b ++ c ++ d ++ e /\
+    forallb is_chmod a = true /\ forallb is_chown b = true /\ forallb is_rename c = true /\
+    forallb is_trunc d = true /\ forallb is_times e = true.
+Proof. intros; split; [eapply wstat_at_most_five | eapply wstat_order]; eassumption. Qed.
+Print Assumptions C17_wstat_order.
+
+(* chmod iff a mode is given, on the fid's object, with the requested permission bits *)
+Theorem C17_wstat_chmod_exact : forall dotu root path w ops,
+  wstat_plan dotu root path w = CPlan ops ->
+  (forall p m, In (SChmod p m) ops ->
+     p = path /\ w_mode w <> ones32 /\ N.land m 511 = N.land (w_mode w) 511) /\
+  (w_mode w <> ones32 -> exists m, In (SChmod path m) ops).
+Proof. exact wstat_chmod_exact. Qed.
+Print Assumptions C17_wstat_chmod_exact.
+
+(* chown only in 9P2000.u and only when a numeric id is given *)
+Theorem C17_wstat_chown_exact : forall dotu root path w ops p u g,
+  wstat_plan dotu root path w = CPlan ops -> In (SChown p u g) ops ->
+  dotu = true /\ p = path /\ u = w_uidnum w /\ g = w_gidnum w /\
+  (w_uidnum w <> c_NOUID \/ w_gidnum w <> c_NOUID).
+Proof. exact wstat_chown_exact. Qed.
+Print Assumptions C17_wstat_chown_exact.
+
+(* truncate iff a length is given (and the rename, if any, was allowed): on the target, to exactly that length *)
+Theorem C17_wstat_truncate_exact : forall dotu root path w ops,
+  wstat_plan dotu root path w = CPlan ops ->
+  (forall p len, In (STruncate p len) ops ->
+     wstat_target root path w = Some p /\ len = w_length w /\ w_length w <> ones64) /\
+  (forall t, wstat_target root path w = Some t -> w_length w <> ones64 ->
+     In (STruncate t (w_length w)) ops).
+Proof. exact wstat_truncate_exact. Qed.
+Print Assumptions C17_wstat_truncate_exact.
+
+(* chtimes iff a time is given; a time at its don't-touch value is kept, not set (defect D32) *)
+Theorem C17_wstat_chtimes_exact : forall dotu root path w ops,
+  wstat_plan dotu root path w = CPlan ops ->
+  (forall p a m, In (SChtimes p a m) ops ->
+     wstat_target root path w = Some p /\ a = keep32 (w_atime w) /\ m = keep32 (w_mtime w) /\
+     (w_atime w <> ones32 \/ w_mtime w <> ones32)) /\
+  (forall t, wstat_target root path w = Some t -> (w_atime w <> ones32 \/ w_mtime w <> ones32) ->
+     In (SChtimes t (keep32 (w_atime w)) (keep32 (w_mtime w))) ops).
+Proof. exact wstat_chtimes_exact. Qed.
+Print Assumptions C17_wstat_chtimes_exact.
+
+Example C17_wstat_nonvacuous :
+  wstat_plan true [[114]] [[114];[102]] (mkWstat 420 c_NOUID c_NOUID [103] 7 5 ones32)
+  = CPlan [SChmod [[114];[102]] 420; SRename [[114];[102]] [[114];[103]];
+           STruncate [[114];[103]] 7; SChtimes [[114];[103]] None (Some 5)].
+Proof. vm_compute. reflexivity. Qed.
 
 Example C17_nonvacuous :
   create_plan true [[114]] [110] (N.lor c_DMDIR 493) 0 [] None = CPlan [SMkdir [[114];[110]] 493; SOpen [[114];[110]] RDONLY false] /\
